@@ -16,7 +16,7 @@ import tempfile
 
 ROOT = os.path.dirname(os.path.dirname(os.path.abspath(__file__)))
 SEEDED = os.path.join(ROOT, "seeded")
-EXTRA = {"C04-m2": ["C04", "C11", "C18"]}        # the property's own check first
+EXTRA = {"C04-m2": ["C04", "C11", "C18"], "C11-m4": ["C11", "C18"]}        # the property's own check first
 
 
 def sh(*a, **kw):
